@@ -63,7 +63,23 @@ func VH_C20_Observer() {
 	calls := 0
 	obr.OnTableStateUpdated(func(x *pokertable.Table) { seen = x; calls++ })
 
-	// known finding regions are not needed: the defects found here were repaired (see known_findings.json)
+	// the runner may have been shown snapshots before: an earlier copy of the very same hand
+	// state (only the table around it changed: a reservation, a join, an extension ...), or
+	// an earlier state of the hand
+	switch verifrt.IntRange("history", 0, 2) {
+	case 1:
+		t0 := vhTableWithHand(m)
+		t0.UpdateSerial = t.UpdateSerial - 1
+		verifrt.Assert(obr.UpdateTableState(t0) == nil, "earlier snapshot accepted")
+	case 2:
+		t0 := vhTableWithHand(m)
+		if t0.State.GameState != nil {
+			t0.State.GameState.Status.CurrentEvent = vhEvents[verifrt.IntRange("event0", 0, len(vhEvents)-1)]
+			t0.State.GameState.UpdatedAt = verifrt.Int64("updatedAt0")
+		}
+		verifrt.Assert(obr.UpdateTableState(t0) == nil, "earlier snapshot accepted")
+	}
+	calls = 0
 	err := obr.UpdateTableState(t)
 
 	verifrt.Assert(err == nil && calls == 1 && seen == t, "observer callback receives the snapshot once")
